@@ -1,5 +1,6 @@
 import I18n.Driver.Plural
 import I18n.Driver.CheckPlurals
+import I18n.Driver.Mo
 /- Line-protocol driver: `<model> <op> <args…>` per line on stdin, one canonical line per op on stdout. -/
 open I18n.Driver
 
@@ -7,6 +8,7 @@ def step (line : String) : String :=
   match (line.trimAscii.toString.splitOn " ").filter (· ≠ "") with
   | "plural" :: op :: args => Plural.handle op args
   | "checkplurals" :: op :: args => CheckPlurals.handle op args
+  | "mo" :: op :: args => Mo.handle op args
   | _ => "bad-op"
 
 partial def loop (h : IO.FS.Stream) (out : IO.FS.Stream) : IO Unit := do
